@@ -339,9 +339,7 @@ def reuse(fmt, model, text0, ob1, out):
             fm = bd.build(model)
             wr = fmt.writer_cls(pa, fm)
             wr.transform()
-            edit(fm)
-            if bd.observe(fm) != em:
-                raise AssertionError('in-place edit did not give the expected model: %s' % what)
+            cm.checked_edit(fm, edit, model, em, what)
             got = wr.transform()
             engine.tick(3)
             if got != want:
